@@ -102,13 +102,20 @@ func hashSciForm(s string) (float64, bool) {
 // AdaptStable and, if it is a non-integer number, it is the plain decimal
 // rendering of that number (hash replies print floats without exponent).
 func HashValueStable(s string) bool {
-	if !AdaptStable(s) {
+	n, _, err := big.ParseFloat(s, 10, 256, big.ToNearestEven)
+	if err != nil {
+		return true // not numeric: stored as the string itself
+	}
+	if n.IsInt() {
+		i, _ := n.Int64()
+		return strconv.Itoa(int(i)) == s
+	}
+	f, _ := n.Float64()
+	if math.IsInf(f, 0) {
 		return false
 	}
-	if _, sci := hashSciForm(s); sci {
-		return false
-	}
-	return true
+	// hash readers print floats in plain decimal: the value survives iff it is that rendering
+	return strconv.FormatFloat(f, 'f', -1, 64) == s
 }
 
 // hashValM matches a reply element carrying the field value s.
